@@ -87,9 +87,11 @@ Record wdesc := mkDesc {
 Record rp_desc := mkRp {
   rp_champion : bool;        (* champion_parameters = convert_to_parameters(champion_decision) *)
   rp_best : bool;            (* best_parameters = convert_to_parameters(best_decision) *)
-  rp_final : bool            (* the final pipeline runs (simulated outputs) get champion_parameters, not the decision *)
+  rp_final : bool;           (* the final pipeline runs (simulated outputs) get champion_parameters, not the decision *)
+  rp_final_1d : bool         (* the island's row handed to update_processor stays 1-D whatever its length
+                                (a bare .squeeze() turns a row of length one into a 0-d array: IndexError) *)
 }.
-Definition rp_ok (r : rp_desc) : bool := rp_champion r && rp_best r && rp_final r.
+Definition rp_ok (r : rp_desc) : bool := rp_champion r && rp_best r && rp_final r && rp_final_1d r.
 
 (* the description of the unchanged tree (translator FALLBACK; examples) *)
 Definition desc_as_coded : wdesc :=
@@ -300,7 +302,9 @@ Section Generic.
   Definition g_reported (conv : bool) (d : wdesc) (vs : list var) (x : list A) : list A :=
     if conv then g_convert (d_cv d) vs x else x.
   Definition g_final_applied (r : rp_desc) (d : wdesc) (vs : list var) (x : list A) :=
-    g_assign (d_up d) vs (g_reported (rp_final r) d vs x).
+    if rp_final_1d r || negb (total vs =? 1)
+    then g_assign (d_up d) vs (g_reported (rp_final r) d vs x)
+    else None.     (* parameter[a] / parameter[a:b] on a 0-d array *)
 
   (* ================================================================== object store and histories *)
 
